@@ -280,6 +280,14 @@ impl TransportHandle {
     pub fn local_peer_id(&self) -> PeerId {
         PeerId::from_public_key(&self.0.keypair.public().into())
     }
+
+    /// Allocate a substream id from the allocator shared with the protocols, the way connection
+    /// tasks label inbound substreams.
+    pub fn next_substream_id(&self) -> SubstreamId {
+        SubstreamId::from(
+            self.0.next_substream_id.fetch_add(1usize, std::sync::atomic::Ordering::Relaxed),
+        )
+    }
 }
 
 /// Dump of one peer of the connection manager.
